@@ -105,6 +105,8 @@ func VerifFibStatsOf(f FibStrategy) VerifFibStats {
 // VerifRibStats returns the number of RIB tree nodes (root excluded) and the number of
 // those that lie on a path from the root to a node holding routes.
 func VerifRibStats() (nodes int, needed int) {
+	Rib.mutex.Lock()
+	defer Rib.mutex.Unlock()
 	var walk func(n *RibEntry) bool
 	walk = func(n *RibEntry) bool {
 		need := len(n.routes) > 0
@@ -125,7 +127,11 @@ func VerifRibStats() (nodes int, needed int) {
 
 // VerifReset re-creates the package-level RIB, readvertiser list and network-region table.
 func VerifReset() {
-	Rib = RibTable{RibEntry: RibEntry{children: map[*RibEntry]bool{}}}
+	// emptied in place under the RIB mutex: a face goroutine of an earlier case may still be
+	// inside (or about to enter) CleanUpFace, and must find a valid mutex
+	Rib.mutex.Lock()
+	Rib.RibEntry = RibEntry{children: map[*RibEntry]bool{}}
+	Rib.mutex.Unlock()
 	readvertisers = make([]RibReadvertise, 0)
 	NetworkRegion = new(networkRegionTable)
 }
